@@ -9,6 +9,10 @@ if ! PYTHONPATH="$HERE/.deps" "$PY" -c "import hypothesis, sortedcontainers, att
   "$PY" -m pip install --quiet --no-index --find-links /opt/veriftools/wheels \
       --target "$HERE/.deps" hypothesis || { echo "setup: cannot install hypothesis" >&2; exit 2; }
 fi
+# atheris (coverage-guided part of C13) - optional: the part is skipped with a note when it cannot be imported
+if ! PYTHONPATH="$HERE/.deps" "$PY" -c "import atheris" 2>/dev/null; then
+  "$PY" -m pip install --quiet --no-index --find-links /opt/veriftools/wheels --target "$HERE/.deps" atheris 2>/dev/null || echo "setup: atheris not installed (C13 fuzz part will be skipped)"
+fi
 PYTHONPATH="$HERE/.deps" "$PY" -c "import hypothesis; print('hypothesis', hypothesis.__version__)" || exit 2
 PYTHONPATH="/repo" "$PY" -c "import importlib.util, infretis; print('infretis from', infretis.__file__)" || exit 2
 mkdir -p "$HERE/evidence" "$HERE/replays"
